@@ -6,14 +6,19 @@ plain values: "succeeds" = authenticate() returns) or raises a generated excepti
 (AuthenticationException, BadAuthenticationType, PartialAuthentication, SSHException,
 ValueError, OSError, EOFError, socket.timeout, KeyError, a custom Exception subclass).
 Both the pulls from the generator and the authenticate() calls are logged.
+What get_sources() produces are ATTEMPTS, not necessarily distinct objects: an attempt may be a fresh source
+object, the SAME object as an earlier attempt (a strategy that retries a source: each attempt has its own scripted
+outcome), a distinct object that compares EQUAL to another one (sources with value __eq__/__hash__, e.g. same
+user name), or an unhashable object (value __eq__ without __hash__).
 
 Oracle (k = index of the first succeeding source, or None):
   (a) authenticate(transport) calls source.authenticate(transport) for sources 0..k (all
       when k is None) in order, each exactly once, with the transport it was given;
   (b) sources after k are never pulled from the generator, let alone called;
   (c) k is not None: the return value is an AuthResult (list) of SourceResult(source, result)
-      for sources 0..k in order, `source` being the very source object and `result` the very
-      exception instance raised / the very value returned; result.strategy is the strategy;
+      for ATTEMPTS 0..k in order (one entry per attempt, also when one object is attempted several times or
+      several attempted objects compare equal), `source` being the very source object and `result` the very
+      exception instance raised / the very value returned by that attempt; result.strategy is the strategy;
   (d) k is None (including the empty list): AuthFailure is raised, and its .result is such an
       AuthResult covering every source with the exception instance each one raised.
 """
@@ -23,7 +28,8 @@ PROPERTY = "C44"
 LEVEL = "exploration"
 RULE = (
     "hypothesis-generated scripts of 0-8 auth sources, each returning a generated value or raising one of 10 exception types, "
-    "fed through a generator-based get_sources with call/pull logging; non-trivial = >= 2 sources of which at least one fails "
+    "fed through a generator-based get_sources with call/pull logging; an attempt is a fresh object, the same object as an earlier "
+    "attempt (own outcome per attempt), an equal-but-distinct object (value __eq__/__hash__) or an unhashable one; non-trivial = >= 2 sources of which at least one fails "
     "before the outcome is decided (first success preceded by a failure, or >= 2 failures and no success) ; distinct by SHA-1 of the script"
 )
 
@@ -43,7 +49,17 @@ source_spec = st.one_of(
     st.tuples(st.just("raise"), st.sampled_from(EXC_NAMES), st.text(max_size=8)),
     st.tuples(st.just("raise"), st.sampled_from(EXC_NAMES), st.just("")),
 )
-case_st = st.lists(source_spec, max_size=8)
+# which object an attempt uses: None = a fresh plain source; "same:n" = shared object n of this call (attempted again);
+# "equal:n" = a fresh object with value equality (all "equal:n" of one n compare and hash equal); "unhash:n" = ditto, unhashable
+_obj = st.sampled_from([None] * 7 + ["same:0", "same:0", "same:1", "same:2", "equal:0", "equal:0", "equal:1", "unhash:0"])
+attempt = st.builds(lambda spec, obj: tuple(spec) + (obj,), source_spec, _obj)
+case_st = st.lists(attempt, max_size=8)
+
+
+def _split(att):
+    """attempt -> (spec, obj); attempts saved before the object dimension existed have no obj element."""
+    n = 2 if att[0] == "ok" else 3
+    return tuple(att[:n]), (att[n] if len(att) > n else None)
 
 
 class _Custom(Exception):
@@ -92,6 +108,8 @@ def execute(ctx, scripts):
 def _one_call(ctx, holder, script, jcase, call_no, ncalls):
     from paramiko.auth_strategy import AuthFailure, AuthResult, AuthSource, AuthStrategy
 
+    objs = [_split(a)[1] for a in script]
+    script = [_split(a)[0] for a in script]
     k = None
     for i, s in enumerate(script):
         if s[0] == "ok":
@@ -102,6 +120,20 @@ def _one_call(ctx, holder, script, jcase, call_no, ncalls):
     classes = ["len:%d" % len(script), "all-fail" if k is None else "success@%d" % k]
     if k is not None and k < len(script) - 1:
         classes.append("sources-after-success")
+    upto_ = k if k is not None else len(script) - 1
+    tried = objs[: upto_ + 1]
+    for o in set(x for x in tried if x and x.startswith("same")):
+        idx = [i for i, x in enumerate(tried) if x == o]
+        if len(idx) >= 2:
+            classes.append("same-object-attempted-again")
+            if sum(1 for i in idx if script[i][0] == "raise") >= 2:
+                classes.append("same-object-fails-more-than-once")
+                nontrivial = True
+    for kind, label in (("equal", "equal-but-distinct-sources-attempted"), ("unhash", "unhashable-source-attempted")):
+        for o in set(x for x in tried if x and x.startswith(kind)):
+            if kind == "unhash" or tried.count(o) >= 2:
+                classes.append(label)
+    classes = sorted(set(classes))
     if call_no == 0:
         if ncalls > 1:
             nontrivial = True
@@ -112,30 +144,60 @@ def _one_call(ctx, holder, script, jcase, call_no, ncalls):
     log = []
     transport = object()
 
+    outcomes = {}
+
     class Src(AuthSource):
-        def __init__(self, idx, spec):
-            AuthSource.__init__(self, username="u%d" % idx)
-            self.idx = idx
-            self.spec = spec
-            self.outcome = None
+        """One source object; it may stand for several attempts, each with its own scripted outcome."""
+
+        def __init__(self, name):
+            AuthSource.__init__(self, username=name)
+            self.queue = []  # [(attempt index, spec)] in the order this object is produced
+            self.n = 0
 
         def __repr__(self):
-            return "Src(%d)" % self.idx
+            return "Src(%s)" % self.username
 
         def authenticate(self, tr):
-            log.append(("call", self.idx, tr is transport))
-            if self.spec[0] == "ok":
-                self.outcome = self.spec[1]
-                return self.outcome
-            self.outcome = _make_exc(self.spec[1], self.spec[2])
-            raise self.outcome
+            idx, spec = self.queue[min(self.n, len(self.queue) - 1)]
+            self.n += 1
+            log.append(("call", idx, tr is transport))
+            if spec[0] == "ok":
+                outcomes[idx] = spec[1]
+                return spec[1]
+            outcomes[idx] = _make_exc(spec[1], spec[2])
+            raise outcomes[idx]
 
-    sources = [Src(i, s) for i, s in enumerate(script)]
+    class EqSrc(Src):
+        def __eq__(self, other):
+            return isinstance(other, Src) and other.username == self.username
+
+        def __hash__(self):
+            return hash(self.username)
+
+    class UnhashableSrc(Src):
+        def __eq__(self, other):
+            return isinstance(other, Src) and other.username == self.username
+
+        # (defining __eq__ without __hash__ makes instances unhashable)
+
+    shared = {}
+    sources = []
+    for i, (spec, obj) in enumerate(zip(script, objs)):
+        if obj is None:
+            src = Src("u%d" % i)
+        elif obj.startswith("same"):
+            src = shared.get(obj) or shared.setdefault(obj, Src(obj))
+        elif obj.startswith("equal"):
+            src = EqSrc(obj)
+        else:
+            src = UnhashableSrc(obj)
+        src.queue.append((i, spec))
+        sources.append(src)
 
     class Strat(AuthStrategy):
         def get_sources(self):
-            for s in holder["sources"]:
-                holder["log"].append(("pull", s.idx))
+            for i, s in enumerate(holder["sources"]):
+                holder["log"].append(("pull", i))
                 yield s
 
     if "strat" not in holder:
@@ -206,16 +268,16 @@ def _one_call(ctx, holder, script, jcase, call_no, ncalls):
         if src is not sources[i]:
             ctx.violation("result-content", "source-identity-or-order", jcase, "item %d source %r expected %r" % (i, src, sources[i]))
             return False
-        if res is not sources[i].outcome:
+        if res is not outcomes[i]:
             kind = "exception" if script[i][0] == "raise" else "return-value"
-            ctx.violation("result-content", "outcome-identity:%s" % kind, jcase, "item %d result %r expected %r" % (i, res, sources[i].outcome))
+            ctx.violation("result-content", "outcome-identity:%s" % kind, jcase, "item %d result %r expected %r" % (i, res, outcomes[i]))
             return False
     return True
 
 
 def run(ctx):
     ctx.set_budget(60, 840)
-    ctx.explore(st.lists(case_st, min_size=1, max_size=3), lambda c: execute(ctx, c), ctx.scale(5000, 100000))
+    ctx.explore(st.lists(case_st, min_size=1, max_size=3), lambda c: execute(ctx, c), ctx.scale(4500, 100000))
 
 
 def replay(ctx, case):
